@@ -55,6 +55,8 @@ def _simple_actor(rng, name, fail=False, ret=None, length=None):
     for _ in range(length if length is not None else rng.randint(0, 3)):
         ops.append({"op": "sleep", "d": rng.choice([0.25, 0.5, 1, 2])})
         ops.append({"op": "now"})
+    if rng.random() < 0.15:
+        ops.insert(rng.randint(0, len(ops)), {"op": "thread_probe", "ctx": rng.random() < 0.6})
     if fail:
         ops.append({"op": "raise", "type": rng.choice(["E", "A", "K", "Z"])})
     spec = {"name": name, "ops": ops}
@@ -72,6 +74,15 @@ def generate(rng, tier):
         start = rng.choice([0, 0, -2, 3.5])
         if kind == "ok":
             scenario = _timer_program(rng)
+        elif kind == "fail" and rng.random() < 0.15:
+            # the only failure of the run: a root that is still suspended when `till` is reached
+            # and whose clean-up raises as the run closes it - that is the exception of the run
+            actors = [_simple_actor(rng, "r%d" % i) for i in range(rng.randint(0, 2))]
+            actors.insert(rng.randint(0, len(actors)), {"name": "rz", "ops": [{
+                "op": "finally", "body": [{"op": "sleep", "d": 64}],
+                "sync": [{"op": "raise", "type": rng.choice(["E", "K"])}]}]})
+            scenario = {"start": start, "roots": "direct", "resources": {}, "actors": actors,
+                        "till": start + rng.choice([8.25, 16.5])}
         elif kind == "fail":
             actors = [_simple_actor(rng, "r%d" % i, fail=rng.random() < 0.5)
                       for i in range(rng.randint(1, 4))]
@@ -222,6 +233,13 @@ def run_history(case):
             for rule, msg in rec.kernel_violations:
                 bad("kernel:" + rule, "run %d: %s" % (index, msg))
             _check_run(bad, index, kind, run["scenario"], rec)
+            for ev in rec.trace:
+                if ev[4] == "thread_probe":
+                    stats["probe.helper-thread-probes"] = \
+                        stats.get("probe.helper-thread-probes", 0) + 1
+                    if ev[6] != "none":
+                        bad("simulation-visible-in-other-thread", "run %d: a helper thread started "
+                            "by %s (copied context: %r) sees a simulation" % (index, ev[3], ev[5]))
             seen = _outside()
             if seen is not None:
                 bad("simulation-visible-outside", "time.now == %r after run %d (%s, outcome %r)"
